@@ -8,6 +8,7 @@ mod fw;
 mod interp;
 mod keccak;
 mod mon;
+mod pcref;
 mod props;
 mod refevm;
 mod statehist;
